@@ -327,6 +327,9 @@ func checkC18(r *core.Result) {
 			text  string
 			plain bool // condition is just `ok`
 			pos   token.Pos
+			fam   string   // runtime family of the asserted interface
+			cond  ast.Expr // the whole condition
+			subj  string   // the asserted expression
 		}
 		var probes []probe
 		for _, st := range f.Decl.Body.List {
@@ -351,7 +354,79 @@ func checkC18(r *core.Result) {
 				continue
 			}
 			_, plain := is.Cond.(*ast.Ident)
-			probes = append(probes, probe{iface: it, text: types.ExprString(ta.Type), plain: plain, pos: is.Pos()})
+			fam, _ := familyOfTypeExpr(info, ta.Type)
+			probes = append(probes, probe{iface: it, text: types.ExprString(ta.Type), plain: plain, pos: is.Pos(), fam: fam, cond: is.Cond, subj: types.ExprString(ta.X)})
+		}
+		implies := func(i, j int) bool { // every value matching probe j's interface matches probe i's
+			for k := 0; k < probes[i].iface.NumMethods(); k++ {
+				m := probes[i].iface.Method(k)
+				obj, _, _ := types.LookupFieldOrMethod(probes[j].iface, false, m.Pkg(), m.Name())
+				if fn, ok := obj.(*types.Func); !ok || !types.Identical(fn.Type(), m.Type()) {
+					return false
+				}
+			}
+			return true
+		}
+		famOfConst := map[string]string{"MessageTypeGogo": "gogo", "MessageTypeGoogleV1": "v1", "MessageTypeGoogle": "v2"}
+		for i, p := range probes {
+			if p.plain {
+				continue
+			}
+			// the discriminating condition: ok && MsgType(<asserted expression>) != <runtime of a later probe this one would shadow>
+			//                           or: ok && MsgType(<asserted expression>) == <runtime of this probe>
+			var conj []ast.Expr
+			var flat func(e ast.Expr)
+			flat = func(e ast.Expr) {
+				if b, ok := ast.Unparen(e).(*ast.BinaryExpr); ok && b.Op == token.LAND {
+					flat(b.X)
+					flat(b.Y)
+					return
+				}
+				conj = append(conj, ast.Unparen(e))
+			}
+			flat(p.cond)
+			okDisc, why := true, ""
+			nDisc := 0
+			for _, c := range conj {
+				if _, isID := c.(*ast.Ident); isID {
+					continue
+				}
+				nDisc++
+				b, ok := c.(*ast.BinaryExpr)
+				if !ok || (b.Op != token.NEQ && b.Op != token.EQL) {
+					okDisc, why = false, "unrecognised discriminator "+types.ExprString(c)
+					continue
+				}
+				call, cst := b.X, b.Y
+				if _, isCall := ast.Unparen(call).(*ast.CallExpr); !isCall {
+					call, cst = b.Y, b.X
+				}
+				ce, isCall := ast.Unparen(call).(*ast.CallExpr)
+				cid, isID := ast.Unparen(cst).(*ast.Ident)
+				if !isCall || !isID || len(ce.Args) != 1 || types.ExprString(ce.Fun) != "MsgType" || types.ExprString(ce.Args[0]) != p.subj {
+					okDisc, why = false, "unrecognised discriminator "+types.ExprString(c)+" (expected MsgType("+p.subj+") compared with a MessageType constant)"
+					continue
+				}
+				k, known := famOfConst[cid.Name]
+				switch {
+				case !known:
+					okDisc, why = false, "discriminator compares with "+cid.Name
+				case b.Op == token.EQL && k != p.fam:
+					okDisc, why = false, fmt.Sprintf("the %s region runs only for messages classified as %s", p.fam, cid.Name)
+				case b.Op == token.NEQ:
+					shadows := false
+					for j := i + 1; j < len(probes); j++ {
+						if probes[j].fam == k && implies(i, j) {
+							shadows = true
+						}
+					}
+					if k == p.fam || !shadows {
+						okDisc, why = false, fmt.Sprintf("the %s region excludes messages classified as %s, which is not the runtime of a later probe it would otherwise shadow", p.fam, cid.Name)
+					}
+				}
+			}
+			r.Ob("J9", mname+" :: probe "+p.text+" hands the later runtime's messages on", prog.Pos(p.pos), okDisc && nDisc > 0,
+				"the condition `"+types.ExprString(p.cond)+"` does not separate this runtime's messages from those of the runtime probed later: "+why)
 		}
 		for j := 1; j < len(probes); j++ {
 			shadowedBy := ""
